@@ -28,6 +28,11 @@ from . import common  # noqa: F401,E402  (sets sys.path for aiortc)
 from .common import Report, rng, seed, tier  # noqa: E402
 from . import tlc as T  # noqa: E402
 
+# The model's recursive operators (Scan, SmartRm, RemoveN: one level per slot, 128 slots) and the
+# trace spec's Advance overflow the default 1 MB stack of TLC's worker threads (TLC's simulator then
+# hangs with a dead worker): every JVM started by this check gets a larger thread stack.
+os.environ.setdefault("JAVA_TOOL_OPTIONS", "-Xss64m")
+
 MOD = 1 << 16
 TSMOD = 1 << 32
 MAX_MISORDER = 100
@@ -433,6 +438,8 @@ def lockstep(sc, thorough, r, cov, traces):
             cfg = m_cfg(cap, pf, video, depth, DESIGN_INVS, mm=MAX_MISORDER, mod=MOD).replace("VIEW View\n", "")
             sim, behs = T.simulate(sc, "MCJB", cfg, num=per, depth=depth + 1, seed=seed() + cap + len(offs),
                                    timeout=1200, workers=8)
+            if sim.timed_out or "Exception in thread" in sim.out or "StackOverflowError" in sim.out:
+                raise T.MachineryError("tlc -simulate did not finish (cap %d pf %d)\n%s" % (cap, pf, sim.out[-1500:]))
             if sim.violated:
                 raise T.MachineryError("model JitterBuffer violates A's clauses at the real constants "
                                        "(cap %d pf %d): %s\n%s" % (cap, pf, sim.violated, sim.out[-2500:]))
